@@ -75,6 +75,40 @@ def rule_result_shape(model: Model):
     return obs
 
 
+def rule_result_kind(model: Model):
+    """_amen_mm_python serves amen_mm (4-axis cores, to_ttm=True) and amen_mv (3-axis cores, to_ttm=False): every value it returns must be
+    control- or data-dependent on the flag."""
+    f = model.func("_amen._amen_mm_python")
+    obs = []
+    if "to_ttm" not in f.params():
+        return [Ob("RESULT-SHAPE", "_amen._amen_mm_python:RESULT-KIND:flag", ERROR, model.where(f), "to_ttm", "parameter to_ttm vanished")]
+
+    def mentions(e):
+        return any(isinstance(x, ast.Name) and x.id == "to_ttm" for x in ast.walk(e))
+    parents = {}
+    for n in ast.walk(f.node):
+        for c in ast.iter_child_nodes(n):
+            parents[id(c)] = n
+
+    def under_flag(n):
+        while id(n) in parents:
+            n = parents[id(n)]
+            if isinstance(n, ast.If) and mentions(n.test):
+                return True
+        return False
+    rets = [n for n in ast.walk(f.node) if isinstance(n, ast.Return) and n.value is not None]
+    for i, r in enumerate(rets):
+        ok = under_flag(r) or mentions(r.value)
+        if not ok and isinstance(r.value, ast.Name):
+            defs = [a for a in ast.walk(f.node) if isinstance(a, ast.Assign) and any(isinstance(t, ast.Name) and t.id == r.value.id for t in a.targets)]
+            ok = bool(defs) and all(under_flag(a) or mentions(a.value) for a in defs)
+        obs.append(Ob("RESULT-SHAPE", f"_amen._amen_mm_python:RESULT-KIND:return{i}", OK if ok else VIOLATED, model.where(f, r), norm(r)[:80],
+                      "returned value depends on to_ttm (3-axis cores for amen_mv, 4-axis cores for amen_mm)" if ok else
+                      "this return does not depend on `to_ttm`: amen_mv (to_ttm=False) would receive the 4-axis cores of an operator - a TT matrix of shape "
+                      "[(M_k, 1)] instead of a TT tensor of shape M"))
+    return obs
+
+
 def check(model: Model, tier: str):
     obs = []
     for fs in ("_dmrg.dmrg_matvec_python", "_dmrg.dmrg_hadamard_python", "_amen._amen_mm_python"):
@@ -83,6 +117,7 @@ def check(model: Model, tier: str):
            ("_amen._amen_mm_python", "time_total"): "verbose timing only", ("_amen._amen_mm_python", "tme_sweep"): "verbose timing only"}
     obs += rules.rule_defassign(model, [model.func(a) for a in ANCHORS], exc)
     obs += rule_result_shape(model)
+    obs += rule_result_kind(model)
     eng = Effects(model)
     for fn, p in (("_tt_base.TT.fast_matvec", "initial"), ("_dmrg.dmrg_hadamard", "z0"), ("_amen.amen_mm", "X0"), ("_amen.amen_mv", "x0")):
         fo = model.func(fn)
